@@ -45,7 +45,8 @@ META = {
 
 def units(tier):
     rng = random.Random(seed())
-    specs, n_exh = small_specs(tier, rng)
+    specs, n_exh = small_specs(tier, rng, nrand_quick=60, nrand_thorough=800, chains_quick=150, chains_thorough=1500,
+                                 fixed_quick=100, fixed_thorough=2000)
     maxtok = 4 if tier == "quick" else 5
     return [{"specs": [s.to_json() for s in ch], "maxtok": maxtok, "seed": seed() * 1000 + i}
             for i, ch in enumerate(chunks(specs, 48))]
@@ -66,11 +67,15 @@ def run_unit(u):
             bump(st["build_errors"], type(e).__name__)
             continue
         num = Numbering(g)
-        inputs = inputs_for(spec, u["maxtok"], rng)
+        inputs = inputs_for(spec, u["maxtok"], rng, cap=u.get("cap", 200))
         glr = None
-        for tname, tables in TABLES.items():
-            for ps in (False, True):
-                for pse in (False, True):
+        combos = [(tn, ps, pse) for tn in TABLES for ps in (False, True) for pse in (False, True)]
+        if not (spec.exhaustive and len(spec.rules) <= 4):
+            combos = [("LALR", False, False), ("LALR", True, True), ("SLR", False, False), ("SLR", False, True)]
+        for tname, ps, pse in combos:
+            tables = TABLES[tname]
+            if True:
+                if True:
                     try:
                         with budget(10):
                             p = Parser(g, build_tree=True, prefer_shifts=ps, prefer_shifts_over_empty=pse,
@@ -103,7 +108,7 @@ def run_unit(u):
                         case = {"grammar": gtxt, "options": opts, "input": text}
                         res["evaluations"] += 1
                         try:
-                            with budget(5):
+                            with budget(1.5):
                                 t = p.parse(text)
                             impl = ("ok", tree_sexp(num, t), t)
                         except parglare.SyntaxError as e:
